@@ -50,6 +50,11 @@ func (Seed) IsPrivate() bool {
 	return true
 }
 
+// HardenedOnly reports that SLIP-0010 only defines hardened derivation for ed25519.
+func (Seed) HardenedOnly() bool {
+	return true
+}
+
 // Public returns the corresponding PublicKey.
 func (s Seed) Public() slip10.Key {
 	priv := ed25519.NewKeyFromSeed(s)
